@@ -1218,7 +1218,7 @@ func init() {
 	}
 
 	Checks["C03"] = func(c *Ctx) {
-		c.Cov.Rule = "for every accumulator state with N<=Nin leaves ever added (every alive subset) and every verifier (Verify, Pollard.Verify, MapPollard.Verify full/partial x TotalRows x remember, VerifyPartialProof), every (targets, hashes, proof) triple with |targets|<=T and |proof|<=P over targets in [0,2^(rows+1)+2] plus five giant values and hashes in {zero, every node hash of the state, a dead leaf, a fresh hash}; plus every single edit (thorough: every pair of edits) of every honest proof of up to K leaves for the states with N<=Nedit; oracle: accepted and all supplied hashes non-zero implies every hash sits at its claimed position in the reference forest; states = accumulator states, transitions = verifier calls, non-trivial = accepted inputs"
+		c.Cov.Rule = "for every accumulator state with N<=Nin leaves ever added (every alive subset) and every verifier (Verify, Pollard.Verify, MapPollard.Verify full/partial x TotalRows x remember, VerifyPartialProof), every (targets, hashes, proof) triple with |targets|<=T and |proof|<=P over targets in [0,2^(rows+1)+2] plus five giant values and hashes in {zero, every node hash of the state, a dead leaf, a fresh hash}; plus every single edit (thorough: every pair of edits) of every honest proof of up to K leaves for the states with N<=Nedit; oracle: accepted and all supplied hashes non-zero implies every hash sits at its claimed position in the reference forest; plus the stale-claim family (instances with a history of blocks, one Verify(remember) and one Undo are offered every honest proof of the neighbouring state); states = accumulator states, transitions = verifier calls, non-trivial = accepted inputs"
 		props := map[string]bool{"C03": true}
 		vers := stdVerifiers(c.Thorough())
 		var sound []verSpec
@@ -1261,6 +1261,14 @@ func init() {
 		if c.Thorough() {
 			c.Cov.Bound["double_edits"] = "pairs of edits of honest proofs of <=2 leaves, N in 3..6, Verify/Pollard.Verify/MapPollard"
 			enumEdits(c, 3, 6, 2, true, main, props)
+		}
+		// verifiers with a history: instances that went through blocks, a Verify(remember) call and an
+		// Undo are offered every honest proof of the neighbouring state (before the last block / before
+		// the last undo); an accepted claim must be true now
+		if !c.Expired() {
+			ns := pick(c, 4, 5)
+			c.Cov.Bound["stale_claims"] = fmt.Sprintf("BFS over block histories N<=%d with one undo and one Verify(remember) transition; Stump, Pollard, MapPollard full/partial TR 0,63; every honest proof of the neighbouring state", ns)
+			BFS(c, &HistFamily{Nmax: ns, Insts: stdInsts([]uint8{0, 63}, []string{"all", "none"}), Or: HistOracle{Stale: true, Prop: "C03"}, UndoBud: 1, VerBud: 1}, 0)
 		}
 	}
 
